@@ -39,8 +39,17 @@ def run_one(job):
         if patch:
             rc, o = sh(['git', '-C', rd, 'apply', '--whitespace=nowarn', patch])
             if rc != 0:
-                res.update(status='PATCH-DOES-NOT-APPLY', detail=o[-300:])
-                return res
+                # a seeded change written against an earlier head: test it on the head it was written for
+                mp = os.path.join(os.path.dirname(patch), 'meta.json')
+                base = json.load(open(mp)).get('base_commit') if os.path.exists(mp) else None
+                if base:
+                    sh(['git', '-C', REPO, 'worktree', 'remove', '--force', rd]); shutil.rmtree(rd, ignore_errors=True)
+                    sh(['git', '-C', REPO, 'worktree', 'add', '--detach', '-f', rd, base])
+                    rc, o = sh(['git', '-C', rd, 'apply', '--whitespace=nowarn', patch])
+                    res['base_commit'] = base
+                if rc != 0:
+                    res.update(status='PATCH-DOES-NOT-APPLY', detail=o[-300:])
+                    return res
             rc, o = sh(['sh', os.path.join(V, 'tools', 'repo_check.sh'), rd], timeout=600)
             m = re.search(r'Tests\s+\|\|\s+Total\s+(\d+)\s+\|\s+Passed\s+(\d+)\s+\|\s+Failed\s+(\d+)', o)
             res['suite'] = m.group(0) if m else o[-200:]
